@@ -481,3 +481,71 @@ Proof.
   rewrite (Hk0 eq_refl). unfold extract_arg. rewrite K. reflexivity.
 Qed.
 End Buffer.
+
+(* ---- completeness on canonical messages: the validator accepts every OSC 1.0
+   encoding whose address starts with '/' and is printable (so the hypothesis
+   of [valid_accessors_safe] is satisfiable by every such message) ---------- *)
+Definition printable (s : list byte) : Prop := Forall (fun c => 32 <= c <= 126) s.
+
+Lemma path_scan_str s : forall r i len,
+  printable s -> i + zlen s < len ->
+  path_scan (s ++ 0 :: r) i len = Some (i + zlen s).
+Proof.
+  induction s as [|c s IH]; intros r i len Hp Hl; cbn [app path_scan].
+  - unfold zlen in *. cbn [length] in *. replace (len <=? i) with false by (symmetry; apply Z.leb_gt; lia).
+    change (0 =? 0) with true. cbn iota. f_equal. lia.
+  - inversion Hp as [|? ? Hc Hs]; subst. rewrite zlen_cons in *. pose proof (zlen_nonneg s).
+    replace (len <=? i) with false by (symmetry; apply Z.leb_gt; lia).
+    replace (c =? 0) with false by (symmetry; apply Z.eqb_neq; lia).
+    unfold isprint. replace (32 <=? c) with true by (symmetry; apply Z.leb_le; lia).
+    replace (c <=? 126) with true by (symmetry; apply Z.leb_le; lia). cbn [andb].
+    rewrite IH by (auto; lia). f_equal. lia.
+Qed.
+
+Lemma comma_scan_zeros k : forall r i len, 0 <= k -> i + k < len ->
+  comma_scan (zeros k ++ 44 :: r) i len = i + k.
+Proof.
+  intros r i len Hk. revert i. pattern k. apply natlike_ind; [| |exact Hk].
+  - intros i Hl. cbn [zeros Z.to_nat repeat app comma_scan].
+    replace (len <=? i) with false by (symmetry; apply Z.leb_gt; lia).
+    change (44 =? 44) with true. cbn iota. lia.
+  - intros x Hx IH i Hl. rewrite <- Z.add_1_r, zeros_succ by assumption. cbn [app comma_scan].
+    replace (len <=? i) with false by (symmetry; apply Z.leb_gt; lia).
+    change (0 =? 44) with false. cbn iota. rewrite IH by lia. lia.
+Qed.
+
+Theorem valid_enc (a' : list byte) tags args :
+  let a : list byte := (47 : byte) :: a' in
+  msg_wf a tags args -> printable a -> zlen (enc_spec a tags args) < W32 ->
+  valid_message_p (enc_spec a tags args) (zlen (enc_spec a tags args)) = Ok true.
+Proof.
+  intros a WF Hpr Hsz.
+  pose proof (zlen_enc_spec a tags args) as HL. unfold align4 in HL.
+  pose proof (zlen_nonneg a) as Ha0. pose proof (zlen_nonneg tags). 
+  pose proof (zlen_nonneg (concat (map enc_payload args))).
+  set (m := enc_spec a tags args) in *. set (n := zlen m) in *.
+  assert (Hlay : m = a ++ zeros (4 - zlen a mod 4) ++ (44 :: tags) ++ zeros (4 - (1 + zlen tags) mod 4)
+                       ++ concat (map enc_payload args)) by apply enc_layout.
+  assert (Hka : 1 <= 4 - zlen a mod 4 <= 4) by lia.
+  unfold valid_message_p, valid_message_gen. cbn [andb].
+  replace (n =? 0) with false by (symmetry; apply Z.eqb_neq; lia).
+  assert (Hrd0 : rd m 0 = Ok 47).
+  { eapply rd_from; [lia|]. rewrite from_0, Hlay. unfold a. reflexivity. }
+  rewrite Hrd0. cbn [bind]. change (47 =? 47) with true. cbn [negb].
+  replace (zlen m <? n) with false by (symmetry; apply Z.ltb_ge; unfold n; lia).
+  assert (Hps : path_scan m 0 n = Some (zlen a)).
+  { rewrite Hlay at 1. rewrite (zeros_pos _ (proj1 Hka)). cbn [app].
+    rewrite path_scan_str by (auto; lia). reflexivity. }
+  rewrite Hps.
+  assert (Hfrom : from m (zlen a) = zeros (4 - zlen a mod 4) ++ 44 :: (tags ++ zeros (4 - (1 + zlen tags) mod 4)
+                                    ++ concat (map enc_payload args))).
+  { rewrite Hlay at 1. rewrite from_app_len. reflexivity. }
+  rewrite Hfrom. rewrite comma_scan_zeros by lia.
+  replace (4 <? zlen a + (4 - zlen a mod 4) - zlen a) with false by (symmetry; apply Z.ltb_ge; lia).
+  replace ((zlen a + (4 - zlen a mod 4)) mod 4 =? 0) with true by (symmetry; apply Z.eqb_eq; lia).
+  cbn [negb].
+  assert (NB : not_bundle_addr a) by (unfold not_bundle_addr, a; cbn; lia).
+  pose proof (message_length_enc a tags args [] n WF NB Hsz ltac:(unfold n, m; lia)) as HML.
+  rewrite app_nil_r in HML. fold m in HML. rewrite HML. cbn [bind]. fold n.
+  rewrite Z.eqb_refl. reflexivity.
+Qed.
